@@ -34,50 +34,6 @@ RULE += (' ' +
          'records); component carrier: every library packet with a Position '
          'field x 7 triples x every supported version, its decoded fields '
          'read after the context object moved to a version of the other '
-         'layout. ')
-RULE += (' ' +
-         'Added in later rounds: packets with a foreign context written '
-         'through a logged-in Connection; overlapping encode/decode under '
-         'two contexts on opposite sides of 443/741 (positions, block '
-         'records); component carrier: every library packet with a Position '
-         'field x 7 triples x every supported version, its decoded fields '
-         'read after the context object moved to a version of the other '
-         'layout. ')
-RULE += (' ' +
-         'Added in later rounds: packets with a foreign context written '
-         'through a logged-in Connection; overlapping encode/decode under '
-         'two contexts on opposite sides of 443/741 (positions, block '
-         'records); component carrier: every library packet with a Position '
-         'field x 7 triples x every supported version, its decoded fields '
-         'read after the context object moved to a version of the other '
-         'layout. ')
-RULE += (' ' +
-         'Added in later rounds: packets with a foreign context written '
-         'through a logged-in Connection; overlapping encode/decode under '
-         'two contexts on opposite sides of 443/741 (positions, block '
-         'records); component carrier: every library packet with a Position '
-         'field x 7 triples x every supported version, its decoded fields '
-         'read after the context object moved to a version of the other '
-         'layout. ')
-RULE += (' ' +
-         'Added in later rounds: packets with a foreign context written '
-         'through a logged-in Connection; overlapping encode/decode under '
-         'two contexts on opposite sides of 443/741 (positions, block '
-         'records); component carrier: every library packet with a Position '
-         'field x 7 triples x every supported version, its decoded fields '
-         'read after the context object moved to a version of the other '
-         'layout. Round 14: every layout obtained is compared with the one a '
-         'fresh interpreter computes in chronological order (history '
-         'independence); carriers include packets with section positions and '
-         'block records; every other reassigned-context case uses a later '
-         'era as the previous version. ')
-RULE += (' ' +
-         'Added in later rounds: packets with a foreign context written '
-         'through a logged-in Connection; overlapping encode/decode under '
-         'two contexts on opposite sides of 443/741 (positions, block '
-         'records); component carrier: every library packet with a Position '
-         'field x 7 triples x every supported version, its decoded fields '
-         'read after the context object moved to a version of the other '
          'layout. Round 14: every layout obtained is compared with the one a '
          'fresh interpreter computes in chronological order (history '
          'independence); carriers include packets with section positions and '
